@@ -81,6 +81,65 @@ def _pairings_endpoint(rig, scripted):
     return handler
 
 
+def _late_reply_cells(p):
+    """An earlier pairing-management request on the same connection went unanswered until the library's response timer gave it up; the
+    operation under test follows.  The accessory answers in order: its late (successful) answer to the first request, then the error reply
+    of the cell.  The error reply is the answer to the operation under test - whatever the library did about the first request."""
+    from vt.env.iprig import IpRig, std_handler
+    from vt.ref import ipacc
+
+    out = []
+    for cell in p["cells"]:
+        cell = dict(cell, step="ip-remove")
+        if cell["err"] == "absent" or cell["state"] != "expected" or cell.get("subset") or cell.get("errpos") != "last" or cell.get("wire") or cell.get("http", 200) != 200:
+            continue
+        rig = IpRig(seed=p.get("seed", 0))
+        try:
+            held = {}
+
+            def scripted(sess=None):
+                return 200, tlv8.encode(_reply_items(cell)), "application/pairing+tlv8"
+
+            def handler(sess, method, target, headers, body, rig=rig):
+                try:
+                    req = dict(tlv8.decode(bytes(body)))
+                except Exception:  # noqa: BLE001
+                    req = {}
+                if req.get(0) == b"\x05":
+                    return _pairings_endpoint(rig, scripted)(sess, method, target, headers, body)
+                if req.get(0) == b"\x03" and not held.get("done"):
+                    held["sess"] = sess  # (add pairing: the accessory is slow - its answer comes with the next request, if this session lives that long)
+                    held["done"] = True
+                    return None
+                if held.get("sess") is sess:
+                    conn = next(c for c in rig.net.conns if getattr(c, "session", None) is sess)
+                    late = ipacc.http_response(200, tlv8.encode([(6, b"\x02")]), "application/pairing+tlv8")
+                    err = ipacc.http_response(200, tlv8.encode(_reply_items(cell)), "application/pairing+tlv8")
+                    rig.loop.call_soon(lambda: conn.peer_open and conn.send(sess.respond(late + err)))
+                    held["sess"] = None
+                    return None
+                return scripted()
+
+            rig.acc.handler = std_handler({("POST", "/pairings"): handler})
+            rig.connect()
+            try:
+                rig.run(rig.pairing.add_pairing("new-ctl", "ab" * 32, "User"), horizon=120.0)
+                first = "returned"
+            except Exception as e:  # noqa: BLE001
+                first = type(e).__name__
+            try:
+                ret, exc = rig.run(rig.pairing.remove_pairing("someone-else"), horizon=120.0), None
+            except Exception as e:  # noqa: BLE001
+                ret, exc = None, e
+            v = _judge(cell, exc, ret)
+            out += [(sig + ":after-an-earlier-request-on-the-connection-timed-out", dict(det, first_request=first)) for sig, det in v]
+            if out:
+                break
+        finally:
+            rig.close()
+    return out
+
+
 def case_mgmt(p):
     """p['cells']: list of cell dicts sharing step; one rig for all of them."""
     step = p["step"]
@@ -112,6 +171,10 @@ def case_mgmt(p):
             if out:
                 break
         return out
+    if step == "ip-remove":
+        out += _late_reply_cells(p)
+        if out:
+            return out
     if step.startswith("ip-verify"):
         return case_ip_verify(p)
     if step.startswith("ip"):
